@@ -27,9 +27,12 @@ theorem C03_table_order :
             .remove_data, .remove_surrogate], Gen.idOrder m = .containerFirst) ∧
     Gen.firstWrite .remove_variable = .container ∧
     Gen.checksBeforeWrites .update_data ≥ 1 ∧ Gen.checksBeforeWrites .add_surrogate ≥ 1 ∧
-    Gen.checksBeforeWrites .update_surrogate ≥ 2 ∧ Gen.checksBeforeWrites .make_parameter_dynamic ≥ 1 :=
+    Gen.checksBeforeWrites .update_surrogate ≥ 2 ∧ Gen.checksBeforeWrites .make_parameter_dynamic ≥ 1 ∧
+    (∀ m ∈ [Gen.Mut.add_parameters, .remove_parameters, .update_parameters, .add_variables, .remove_variables,
+            .update_variables], Gen.checksBeforeWrites m ≥ 1) :=
   ⟨table_add_order, table_remove_order, table_remove_variable_first, table_update_data_checks,
-   table_add_surrogate_checks, table_update_surrogate_checks, table_make_parameter_dynamic_checks⟩
+   table_add_surrogate_checks, table_update_surrogate_checks, table_make_parameter_dynamic_checks,
+   table_plural_checks⟩
 
 /-- the public mutators found in the source are exactly the thirty the model has an `Op` for -/
 theorem C03_table_mutators :
@@ -46,7 +49,7 @@ theorem C03_table_delegates :
     (Gen.delegates .add_parameters).eraseDups = [.add_parameter] ∧
     (Gen.delegates .remove_parameters).eraseDups = [.remove_parameter] ∧
     (Gen.delegates .update_parameters).eraseDups = [.update_parameter] ∧
-    (Gen.delegates .scale_parameters).eraseDups = [.scale_parameter] ∧
+    Gen.delegates .scale_parameters = [.update_parameters] ∧
     (Gen.delegates .add_variables).eraseDups = [.add_variable] ∧
     (Gen.delegates .remove_variables).eraseDups = [.remove_variable] ∧
     (Gen.delegates .update_variables).eraseDups = [.update_variable] ∧
@@ -136,38 +139,13 @@ theorem C03_one_name_space (h : List HOp) :
   unfold idc cc at *
   omega
 
-/-- A rejected edit changes nothing: after any history, a non-plural mutator that raises leaves content and
-    ids exactly as they were (only the cache may have been cleared). -/
-theorem C03_rejected_is_noop_partial (h : List HOp) (op : Op) (hp : op.plural = false) (e : Err)
+/-- A rejected edit changes nothing: after any history, ANY public mutator that raises — singular, composite
+    or one of the seven forms taking several names — leaves content and ids exactly as they were (only the
+    cache may have been cleared or filled). -/
+theorem C03_rejected_is_noop (h : List HOp) (op : Op) (e : Err)
     (hr : (step (run init h) op).2 = .error e) :
     (step (run init h) op).1.content = (run init h).content ∧ (step (run init h) op).1.ids = (run init h).ids :=
-  (step_good op hp _ (C03_ids_exact h)).2 e hr
-
-/-- plural forms: rejected at the FIRST element ⇒ nothing changed (shown for `add_parameters`; the other six
-    are the same `foldOps`) -/
-theorem C03_plural_head_rejected (h : List HOp) (n : Name) (v : Val) (rest : List (Name × Val)) (e : Err)
-    (hr : (addParameter n v (inval .add_parameters (run init h))).2 = .error e) :
-    (step (run init h) (.add_parameters ((n, v) :: rest))).2 = .error e ∧
-    (step (run init h) (.add_parameters ((n, v) :: rest))).1.content = (run init h).content ∧
-    (step (run init h) (.add_parameters ((n, v) :: rest))).1.ids = (run init h).ids := by
-  have hs0 := exact_of_same (inval_same .add_parameters (run init h)) (C03_ids_exact h)
-  have := foldOps_head_rejected (fun kv : Name × Val => addParameter kv.1 kv.2)
-    (fun a => addParameter_good a.1 a.2) (n, v) rest _ hs0 e hr
-  refine ⟨this.1, ?_, ?_⟩
-  · exact this.2.1.trans (inval_content _ _)
-  · exact this.2.2.trans (inval_ids _ _)
-
-/-- The full statement "a rejected edit changes nothing" is FALSE for the plural forms of the unchanged
-    code (finding F-C03-10): `add_parameters({"a": 1, "a2": …})` on a model that already has `a2`… here:
-    the second element collides, the call raises, the first element stays. -/
-theorem C03_rejected_is_noop_fails_for_plural :
-    ∃ (s : State) (op : Op) (e : Err), Exact s ∧ (step s op).2 = .error e ∧
-      omKeys (step s op).1.ids ≠ omKeys s.ids := by
-  refine ⟨(step init (.add_parameter "k" (.plain 3))).1,
-    .add_parameters [("n1", .plain 1), ("k", .plain 2)], .nameError "k",
-    step_exact _ _ exact_init, ?_, ?_⟩
-  · rfl
-  · decide +kernel
+  (step_good op _ (C03_ids_exact h)).2 e hr
 
 /-- A name freed by a removal can be used again, for a component of any kind. -/
 theorem C03_freed_name_reusable (h : List HOp) (rm : Op) (n : Name)
@@ -271,9 +249,15 @@ example : (run init demoHistory).cache.isSome = true := by decide +kernel
 
 example : omKeys (run init demoHistory).ids = ["x", "r", "k"] := by decide +kernel
 
-/-- a non-plural op satisfies the hypothesis of `C03_rejected_is_noop_partial`, and is indeed rejected -/
-example : (Op.remove_variable "k" true).plural = false ∧
-    (step (run init [.edit (.add_parameter "k" (.plain 2))]) (.remove_variable "k" true)).2
-      = .error (.keyError "k") := ⟨rfl, rfl⟩
+/-- rejected edits exist: a wrong-kind removal, and a batch whose second element is taken (the former
+    finding F-C03-10: it used to keep `n1`) -/
+example : (step (run init [.edit (.add_parameter "k" (.plain 2))]) (.remove_variable "k" true)).2
+      = .error (.keyError "k") := rfl
+
+example :
+    (step (run init [.edit (.add_parameter "k" (.plain 3))])
+      (.add_parameters [("n1", .plain 1), ("k", .plain 2)])).2 = .error (.nameError "k") ∧
+    omKeys (step (run init [.edit (.add_parameter "k" (.plain 3))])
+      (.add_parameters [("n1", .plain 1), ("k", .plain 2)])).1.ids = ["k"] := ⟨rfl, by decide +kernel⟩
 
 end Mxl.C03
